@@ -116,7 +116,12 @@ class BBAN(common.Base):
         branch_code_length: int = ranges[Component.BRANCH_CODE].length
         account_code_length: int = ranges[Component.ACCOUNT_CODE].length
 
-        if len(components[Component.BANK_CODE]) == bank_code_length + branch_code_length:
+        if (
+            branch_code_length
+            and len(components[Component.BANK_CODE]) == bank_code_length + branch_code_length
+        ):
+            if values.get(Component.BRANCH_CODE):
+                raise exceptions.InvalidBranchCode("Branch code given twice")
             components[Component.BRANCH_CODE] = components[Component.BANK_CODE][
                 bank_code_length : bank_code_length + branch_code_length
             ]
